@@ -150,8 +150,8 @@ func (c *Config) Get(format string) (info *Info, err error) {
 	info.RPM.Signature.KeyID = copyString(info.RPM.Signature.KeyID)
 	info.APK.Signature.KeyID = copyString(info.APK.Signature.KeyID)
 	override, ok := c.Overrides[format]
-	if !ok {
-		// no overrides
+	if !ok || override == nil {
+		// no overrides (an empty block, `deb:` with nothing below it, decodes to nil)
 		return info, nil
 	}
 	if err = mergo.Merge(&info.Overridables, override, mergo.WithOverride); err != nil {
@@ -223,6 +223,9 @@ func (c *Config) expandEnvVars() {
 	c.Platform = os.Expand(c.Platform, c.envMappingFunc)
 	c.Arch = os.Expand(c.Arch, c.envMappingFunc)
 	for or := range c.Overrides {
+		if c.Overrides[or] == nil {
+			continue // an empty override block
+		}
 		c.Overrides[or].Conflicts = c.expandEnvVarsStringSlice(c.Overrides[or].Conflicts)
 		c.Overrides[or].Depends = c.expandEnvVarsStringSlice(c.Overrides[or].Depends)
 		c.Overrides[or].Replaces = c.expandEnvVarsStringSlice(c.Overrides[or].Replaces)
